@@ -380,13 +380,26 @@ def run(run):
                 # the result is the eat result itself, mapped to () (Result::map keeps Ok / Err)
                 rv = exs.to_val(p.state, p.ret)
                 ev_ = exs.to_val(p.state, evs[0]["ret"])
-                same = z3.eq(rv, ev_) or (z3.is_app(rv) and rv.decl().name().startswith("call:Result::map") and z3.eq(rv.children()[0], ev_))
+                same = z3.eq(rv, ev_)
+                if not same and z3.is_app(rv) and rv.decl().name().startswith("call:Result::map") and z3.eq(rv.children()[0], ev_):
+                    # mapped to (): the mapping closure must not capture (and so cannot touch) the statements collected so far
+                    mp = [e_ for e_ in p.events if e_["name"].endswith("Result::map")]
+                    clo = mp[-1]["args"][1] if mp else None
+                    same = clo is not None and not (isinstance(clo, Agg) and clo.fields)
                 cls_.append(z3.Implies(conj(p.cond), z3.BoolVal(bool(same))))
             else:
                 cls_.append(z3.Implies(conj(p.cond), z3.BoolVal(False)))
         if not cls_:
             raise Unsupported("no return path")
-        e2.prove_each(run, ob, exs, [], cls_, {}, replay_comments(rp, "statement-newlines"))
+        def replay_stmts(model):
+            r = replay_comments(rp, "statement-newlines")(model)
+            if r.get("reproduced"):
+                return r
+            stt, out = rp.transpile("def x := 1\n\n\ndef y := 2\nprint(x + y)")
+            if stt != "OK" or "x = 1" not in out or "y = 2" not in out:
+                return {"reproduced": True, "role": "statement-newlines:statements-lost", "detail": f"statements separated by blank lines: {stt} {out[:120]!r}"}
+            return r
+        e2.prove_each(run, ob, exs, [], cls_, {}, replay_stmts)
     except Unsupported as e:
         ob.inconclusive(str(e))
 
@@ -446,6 +459,11 @@ def run(run):
                 a, b = rp.transpile(plain), rp.transpile(par)
                 if a != b:
                     bad.append(f"{par!r}: {b[0]} {b[1][:80]!r} instead of {a[0]} {a[1][:80]!r}")
+            # ... and brackets around several expressions still make a tuple
+            for src, must in (("def (a, b) := (1, 2)\nprint(b)", "(1, 2)"), ("def t := (1, 2, 3)\nprint(1)", "(1, 2, 3)")):
+                stt, out = rp.transpile(src)
+                if stt != "OK" or must not in out:
+                    bad.append(f"{src!r}: {stt} {out[:80]!r} (no tuple {must})")
             if bad:
                 return {"reproduced": True, "role": "redundant-parentheses", "detail": "; ".join(bad[:2])}
             return {"reproduced": False, "detail": f"{len(pairs)} programs with redundant parentheses transpile to the same bytes"}
